@@ -9,6 +9,7 @@ Driver for C14 (stream: harness/main/c14.go). One case = one concurrent scenario
                                   one reader run: its snapshot listings (S) and index listings (I)
                                   in its own order, each with its position in the global trace
   state check <0|1> <hex>         real `check` when everything is over
+  timeout 1                       the scenario hit its time limit (hang / overloaded machine): not evaluated
 -/
 open Driver Driver.RT Restic.Model.RepoTrace
 
@@ -41,6 +42,7 @@ def handleC14 (c : Case) : Verdict :=
   let rds := (c.findAll "rd").toList.map parseRd
   let writers := (c.findAll "wres").toList
   let chk := ((c.findAll "state").toList.find? fun r => r.getD 1 "" == "check").map fun r => r.getD 2 "0" == "1"
+  if (c.find "timeout").isSome then .agree false ["scenario-timeout"] else
   -- the property on the implementation's own outputs ----------------------------------------
   let badReader := rds.find? fun r => r.exit != "0"
   let badWriter := writers.find? fun r => r.getD 2 "1" != "0"
